@@ -92,9 +92,9 @@ func TestSyncListRaceStress(t *testing.T) {
 // Push was called, and the list is empty at the end.  One slow producer, poppers polling a list that is empty most of
 // the time, observers reading Len all the while.
 func TestSyncListZeroSizeElements(t *testing.T) {
-	dur := 1500 * time.Millisecond
+	dur := 700 * time.Millisecond
 	if os.Getenv("VERIF_TIER") == "thorough" {
-		dur = 20 * time.Second
+		dur = 8 * time.Second
 	}
 	run := func(t *testing.T, push func(), pop func() bool, length func() int) {
 		var stop int32
@@ -150,6 +150,19 @@ func TestSyncListZeroSizeElements(t *testing.T) {
 	t.Run("struct{}", func(t *testing.T) {
 		l := listz.NewSync[struct{}]()
 		run(t, func() { l.Push(struct{}{}) }, func() bool { _, ok := l.Pop(); return ok }, l.Len)
+	})
+	// element types that cannot be compared with == (func, slice, map): code that compares values panics on them
+	t.Run("func()", func(t *testing.T) {
+		l := listz.NewSync[func() int]()
+		run(t, func() { l.Push(func() int { return 1 }) }, func() bool { f, ok := l.Pop(); return ok && f() == 1 }, l.Len)
+	})
+	t.Run("[]byte", func(t *testing.T) {
+		l := listz.NewSync[[]byte]()
+		run(t, func() { l.Push([]byte{1, 2}) }, func() bool { b, ok := l.Pop(); return ok && len(b) == 2 }, l.Len)
+	})
+	t.Run("map", func(t *testing.T) {
+		l := listz.NewSync[map[int]int]()
+		run(t, func() { l.Push(map[int]int{1: 1}) }, func() bool { m, ok := l.Pop(); return ok && m[1] == 1 }, l.Len)
 	})
 	t.Run("[0]int", func(t *testing.T) {
 		l := listz.NewSync[[0]int]()
